@@ -182,6 +182,29 @@ def r10b(ctx, run):
             good = good and ccs == ["Equal", "NotEqual"]
         run.check(good, k.site(), "#unwrap: %s guards unwrap_sum_ty (line %d)" % (" | ".join(descr), u.ln), FCE, "unwrap-check@%d" % len(kinds), k.file, k.ln,
                   "#unwrap check has the wrong shape: %s" % " | ".join(descr))
+    # must-pass-through: no way through the #unwrap arm avoids every variant check (e.g. an early `return None` for payload-less variants:
+    # a wrong #unwrap to `nil` / a unit variant would keep running)
+    region = fn.blocks_in_lines(lo, hi)
+    anchors = [c.bb for c in checks + unwraps]
+    firsts = [c for c in cs if c.ln > lo and all(fn.dominates(c.bb, a) for a in anchors)]
+    if not firsts:
+        raise LookupError("first call of the #unwrap arm's body")
+    entry = min(firsts, key=lambda c: (c.ln, c.bb)).bb     # the arm body starts by compiling the operand
+    avoid = {c.bb for c in checks}
+    seen, todo, escape = {entry}, [entry], None
+    while todo and escape is None:
+        u = todo.pop()
+        for v in fn.succ[u]:
+            if v in seen or v in avoid or fn.blocks[v].get("cleanup"):
+                continue
+            seen.add(v)
+            if fn.blocks[v]["t"]["k"] == "return":
+                escape = (u, v)
+                break
+            todo.append(v)
+    run.check(escape is None, "%s:%d" % (fn.file, lo), "every path from the #unwrap arm to the function's return passes a variant check", FCE, "unwrap-bypass", fn.file, lo,
+              "the #unwrap arm can reach the function's return without any variant check (a path from its entry avoids every compile_unreachablez, e.g. an early return): a "
+              "wrong #unwrap on that path does not abort")
     run.check(kinds == {"tagged", "nullable"}, "%s:%d" % (fn.file, lo), "both representations (tagged union, nullable pointer) are checked", FCE, "unwrap-kinds", fn.file, lo,
               "#unwrap must check tagged unions and nullable pointers; found %s" % sorted(kinds))
     # nil <-> Equal pairing on the nullable branch (syntax)
